@@ -12,8 +12,12 @@ mod rng;
 
 use std::io::{BufRead, Write};
 
+/// number of cases started (watchdog)
+static PROGRESS: std::sync::atomic::AtomicU64 = std::sync::atomic::AtomicU64::new(0);
+
 /// run one operation of the real implementation; panics are reported as "panic"
 pub fn run_op(lhs: &str) -> String {
+    PROGRESS.fetch_add(1, std::sync::atomic::Ordering::Relaxed);
     let lhs = lhs.to_string();
     canon::guard(move || {
         let toks: Vec<&str> = lhs.split(' ').collect();
@@ -58,21 +62,50 @@ fn main() {
     // silence panic messages: panics are an observable ("panic"), not noise
     std::panic::set_hook(Box::new(|_| {}));
     let args: Vec<String> = std::env::args().collect();
+    // watchdog: a single case that does not come back within the limit ends the process with status 97
+    // (the orchestrator reports the case as "no result" and resumes behind it)
+    let limit: u64 = std::env::var("VERIF_CASE_LIMIT_S").ok().and_then(|s| s.parse().ok()).unwrap_or(120);
+    std::thread::spawn(move || {
+        let mut seen = PROGRESS.load(std::sync::atomic::Ordering::Relaxed);
+        let mut since = std::time::Instant::now();
+        loop {
+            std::thread::sleep(std::time::Duration::from_millis(500));
+            let now = PROGRESS.load(std::sync::atomic::Ordering::Relaxed);
+            if now != seen {
+                seen = now;
+                since = std::time::Instant::now();
+            } else if now > 0 && since.elapsed().as_secs() >= limit {
+                std::process::exit(97);
+            }
+        }
+    });
     let stdout = std::io::stdout();
-    let mut out = std::io::BufWriter::new(stdout.lock());
+    // line buffered: when a case hangs or kills the process, every completed case has already been written
+    let mut out = std::io::LineWriter::new(stdout.lock());
     match args.get(1).map(|s| s.as_str()) {
-        Some("gen") => {
+        // `gen <prop> <tier> <seed> [shard] [shards] [skip]` runs the cases; `list …` only prints their left-hand sides
+        Some(mode @ ("gen" | "list")) => {
             let prop = &args[2];
             let tier = &args[3];
             let seed: u64 = args[4].parse().unwrap();
             let sidx: usize = args.get(5).map(|s| s.parse().unwrap()).unwrap_or(0);
             let shards: usize = args.get(6).map(|s| s.parse().unwrap()).unwrap_or(1);
+            let skip: usize = args.get(7).map(|s| s.parse().unwrap()).unwrap_or(0);
+            let mut done = 0usize;
             let mut cases: Vec<String> = Vec::new();
             gen1::gen(prop, tier, seed, &mut cases);
             gen2::gen(prop, tier, seed, &mut cases);
             gen3::gen(prop, tier, seed, &mut cases);
             for (i, lhs) in cases.into_iter().enumerate() {
                 if i % shards != sidx {
+                    continue;
+                }
+                done += 1;
+                if done <= skip {
+                    continue;
+                }
+                if mode == "list" {
+                    writeln!(out, "{lhs}").unwrap();
                     continue;
                 }
                 let r = run_op(&lhs);
